@@ -155,4 +155,4 @@ def check(run):
                 run.check(off == ({'start': 1}, 0), 'R14', 'range-offset', H + '::register_content', lf.loc(b), 'the generator is not asked for the range starting at `start`', 'generator offset is start')
     if not found:
         run.broke('register_content: send_response/gen pair not found')
-    run.floor('R4', 6)
+    run.floor('R4', 4)
